@@ -28,6 +28,9 @@ def corpus_cfgs():
     out = []
     for n in (6, 7, 10, 13):      # F1: fixed schedule of n steps took n+1 iterations
         out.append(dict(base, sample_kwargs=dict(adaptive=False, n_steps=n)))
+    # a fixed schedule does not depend on the bisection tolerance (tiny: the last step must still be snapped to 1; coarse: no early jump)
+    out.append(dict(base, sample_kwargs=dict(adaptive=False, n_steps=7, beta_tolerance=0.15)))
+    out.append(dict(base, sample_kwargs=dict(adaptive=False, n_steps=10, beta_tolerance=1e-20)))
     out.append(dict(base, sample_kwargs=dict(adaptive=True, max_n_steps=3, target_efficiency=0.2)))   # F2: ZeroDivisionError
     out.append(dict(base, s=1e-3, N=4, sample_kwargs=dict(adaptive=True, beta_tolerance=5e-2)))      # F3: no progress
     out.append(dict(base, sample_kwargs=dict(adaptive=True, min_step=0.3, max_n_steps=2)))           # cap with beta < 1
